@@ -256,7 +256,7 @@ AddLaw == (stage = "a1" /\ last.op \in {"add", "sub"} ) =>
 
 Emit ==
     (EMIT /\ stage' # "init") =>
-        CASE MODE = "poly" -> PrintT("SCRIPT " \o ToJson([fam |-> "linalg", kind |-> "poly", q |-> 1, ctor |-> hist'.ctor, pipe |-> hist'.pipe, lastonly |-> TRUE]))
+        CASE MODE = "poly" -> PrintT("SCRIPT " \o ToJson([fam |-> "linalg", kind |-> "poly", q |-> 2, ctor |-> hist'.ctor, pipe |-> hist'.pipe, lastonly |-> TRUE]))
           [] MODE = "clean" -> PrintT("SCRIPT " \o ToJson([fam |-> "linalg", kind |-> "poly", q |-> 1, ctor |-> hist'.ctor, pipe |-> hist'.pipe, lastonly |-> TRUE]))
           [] MODE = "aff" -> PrintT("SCRIPT " \o ToJson([fam |-> "linalg", kind |-> "aff", q |-> 2] @@ hist'))
           [] MODE = "lp" -> PrintT("SCRIPT " \o ToJson([fam |-> "linalg", kind |-> "lp", q |-> 1, p |-> hist'.p, c |-> hist'.c]))
